@@ -110,8 +110,35 @@ def lstr(s) -> str:
     return '"' + str(s).replace("\\", "\\\\").replace('"', '\\"') + '"'
 
 
-def name_list(node, what):
-    """['U1', 'U2'] from a list literal of names or strings"""
+def resolve_const(node, tree, cls_name):
+    """a Name (module-level constant) or cls./self./<Class>.attribute (class-level constant) that is assigned exactly once, to a list or
+    tuple literal, in the same file: that literal; anything else: the node itself"""
+    if tree is None:
+        return node
+    scope = None
+    if isinstance(node, ast.Name):
+        name, scope = node.id, tree.body
+    elif isinstance(node, ast.Attribute) and isinstance(node.value, ast.Name) and node.value.id in ("cls", "self", cls_name):
+        name = node.attr
+        scope = next((c.body for c in tree.body if isinstance(c, ast.ClassDef) and c.name == cls_name), None)
+    if scope is None:
+        return node
+    hits = [val for st in scope for tgt, val in [assigned(st)] if tgt == name]
+    if len(hits) == 1 and isinstance(hits[0], (ast.List, ast.Tuple)):
+        # the constant must not be rebound or mutated anywhere else in the file
+        for n in ast.walk(tree):
+            if isinstance(n, (ast.AugAssign, ast.Delete)) and name in ast.unparse(n):
+                return node
+            if isinstance(n, ast.Call) and isinstance(n.func, ast.Attribute) and G.P.dotted(n.func.value) in (name, f"cls.{name}", f"self.{name}", f"{cls_name}.{name}") \
+                    and n.func.attr in ("append", "extend", "insert", "remove", "pop", "clear", "sort", "reverse"):
+                return node
+        return hits[0]
+    return node
+
+
+def name_list(node, what, tree=None, cls_name=None):
+    """['U1', 'U2'] from a list / tuple literal of names or strings (or a once-assigned module / class constant holding one)"""
+    node = resolve_const(node, tree, cls_name)
     if not isinstance(node, (ast.List, ast.Tuple)):
         raise G.P.Untranslatable(f"{what}: not a list literal")
     out = []
@@ -180,15 +207,15 @@ def unit_VarTypes():
     init = G.P.find_function(tree, "ANYVALUE", "__init__")
     for st in ast.walk(init):
         if isinstance(st, ast.Call) and isinstance(st.func, ast.Attribute) and st.func.attr == "__init__" and st.args:
-            any_types = name_list(st.args[0], "ANYVALUE types")
+            any_types = name_list(st.args[0], "ANYVALUE types", tree, "ANYVALUE")
     if any_types is None:
         raise G.P.Untranslatable("ANYVALUE.__init__: type list not found")
     match_order = None
     mt = G.P.find_function(tree, "Dynamic", "_match_type")
     for st in ast.walk(mt):
         tgt, val = assigned(st)
-        if tgt == "var_types" and isinstance(val, ast.List):
-            match_order = name_list(val, "_match_type order")
+        if tgt == "var_types" and isinstance(resolve_const(val, tree, "Dynamic"), (ast.List, ast.Tuple)):
+            match_order = name_list(val, "_match_type order", tree, "Dynamic")
     if match_order is None:
         raise G.P.Untranslatable("Dynamic._match_type: default order not found")
 
@@ -270,15 +297,15 @@ def unit_ItemTypes():
             if not (isinstance(t, ast.Compare) and isinstance(t.ops[0], ast.GtE) and G.P.dotted(t.left) == "value"
                     and isinstance(t.comparators[0], ast.Constant) and t.comparators[0].value == 0):
                 raise G.P.Untranslatable(f"_from_value_int: sign test {ast.unparse(t)}")
-            uns, sig = name_list(val.body, "unsigned list"), name_list(val.orelse, "signed list")
+            uns, sig = name_list(val.body, "unsigned list", tree, "Item"), name_list(val.orelse, "signed list", tree, "Item")
     last = fv_int.body[-1]
     if isinstance(last, ast.Return) and isinstance(last.value, ast.Call) and isinstance(last.value.func, ast.Subscript):
         fb_int = ast.literal_eval(last.value.func.slice)
     fv_float = G.P.find_function(tree, "Item", "_from_value_float")
     flts = fb_float = None
     for st in ast.walk(fv_float):
-        if isinstance(st, ast.For) and isinstance(st.iter, ast.List):
-            flts = name_list(st.iter, "float list")
+        if isinstance(st, ast.For) and isinstance(resolve_const(st.iter, tree, "Item"), (ast.List, ast.Tuple)):
+            flts = name_list(st.iter, "float list", tree, "Item")
     last = fv_float.body[-1]
     if isinstance(last, ast.Return) and isinstance(last.value, ast.Call) and isinstance(last.value.func, ast.Subscript):
         fb_float = ast.literal_eval(last.value.func.slice)
